@@ -632,9 +632,31 @@ def _check_bytes(args):
     if _GOOD_XLSX is None:
         _GOOD_XLSX = forms.as_xlsx_bytes({"survey": [{"type": "text", "name": "q", "label": "L"}, {"type": "select_one l", "name": "s", "label": "S"}],
                                           "choices": [{"list_name": "l", "name": "a", "label": "A"}]})
-    kind = rng.choice(["random", "random", "truncated", "damaged", "damaged"])
+    kind = rng.choice(["random", "random", "truncated", "damaged", "damaged", "typed"])
     ft = rng.choice([None, ".xlsx", ".xls", ".csv", ".md", ".xlsm"])
-    if kind == "random":
+    if kind == "typed":
+        # a well-formed workbook whose cells -- header cells included -- are typed as numbers, booleans, dates or formulas-as-text
+        import datetime as _dt
+        import io as _io
+        import openpyxl as _px
+        wb = _px.Workbook()
+        ws = wb.active
+        ws.title = "survey"
+        odd = [5, 2.5, True, False, _dt.datetime(2020, 1, 2, 3, 4, 5), _dt.date(2021, 2, 3), _dt.time(4, 5, 6), 0, -1, 1e20, "5", " x ", None]
+        hdr = ["type", "name", "label"] + [rng.choice(odd) for _ in range(rng.randint(0, 3))]
+        rng.shuffle(hdr)
+        ws.append(hdr)
+        for _ in range(rng.randint(0, 3)):
+            ws.append([rng.choice(["text", "integer", "note", 7, True, None]) if h == "type" else (rng.choice(["q", "a1", 3, 4.5, True, None]) if h == "name" else rng.choice(odd + ["L"])) for h in hdr])
+        if rng.random() < 0.5:
+            ws2 = wb.create_sheet(rng.choice(["choices", "settings", "Sheet2", "entities"]))
+            ws2.append([rng.choice(["list_name", "name", "label", "form_id", 1, 2.0, True]) for _ in range(rng.randint(1, 4))])
+            ws2.append([rng.choice(odd + ["l", "a"]) for _ in range(rng.randint(1, 4))])
+        buf = _io.BytesIO()
+        wb.save(buf)
+        data = buf.getvalue()
+        ft = rng.choice([None, ".xlsx", ".xlsm"])
+    elif kind == "random":
         data = bytes(rng.randrange(256) for _ in range(rng.randint(0, 80)))
     elif kind == "truncated":
         data = _GOOD_XLSX[:rng.randint(0, len(_GOOD_XLSX))]
